@@ -28,7 +28,7 @@
    mixed, lists with mixed elements).  Bool columns with missing cells and other
    mixed-kind object columns are outside it. *)
 From Coq Require Import List ZArith QArith Bool String Ascii Arith.
-From PF Require Import Lib.ListX Gen.Tables.
+From PF Require Import Gen.Tables.
 Import ListNotations.
 Open Scope bool_scope.
 
@@ -158,24 +158,30 @@ Fixpoint split_char (c : ascii) (s : string) : list string :=
            end
   end.
 
+(* the separator as one character.  None: not one character (Python raises
+   ValueError for the empty separator, which the caller catches and skips; longer
+   separators are rejected by gen_tables.py, fail-closed). *)
+Definition sep_char (sep : string) : option ascii :=
+  match sep with String c EmptyString => Some c | _ => None end.
+
 (* split_by_sep(row, sep) for a str row: set() if blank, else the set of the
-   stripped pieces.  None: the separator is not one character (Python raises for
-   the empty separator; longer ones are rejected by gen_tables.py). *)
+   stripped pieces *)
+Definition row_tokens (c : ascii) (row : string) : list string :=
+  if String.eqb (strip row) EmptyString then []
+  else nodup string_dec (map strip (split_char c row)).
+
 Definition split_by_sep (row : string) (sep : string) : option (list string) :=
-  match sep with
-  | String c EmptyString =>
-      if String.eqb (strip row) EmptyString then Some []
-      else Some (nodup string_dec (map strip (split_char c row)))
-  | _ => None
-  end.
+  match sep_char sep with Some c => Some (row_tokens c row) | None => None end.
 
 Definition cell_string (c : cell) : string :=
   match c with Str s | DateStr s => s | _ => EmptyString end.
 
-(* _min_count(ser.apply(split_by_sep(., sep)).explode()) ; None = exception, skipped *)
+(* _min_count(ser.apply(split_by_sep(., sep)).explode()) ; None = exception, skipped.
+   explode turns every set into one row per member (an empty set into a NaN row,
+   which value_counts does not count). *)
 Definition sep_min_count (ser : list cell) (sep : string) : option nat :=
-  match mapM (fun c => split_by_sep (cell_string c) sep) ser with
-  | Some sets => Some (min_count_by String.eqb (List.concat sets))
+  match sep_char sep with
+  | Some c => Some (min_count_by String.eqb (flat_map (fun x => row_tokens c (cell_string x)) ser))
   | None => None
   end.
 
@@ -248,8 +254,11 @@ Definition infer_series_stype (col : list cell) : outcome :=
   let ser := dropna col in
   match ser with
   | [] => Inferred None                                (* len(ser) == 0 *)
-  | LList first :: _ => infer_list_loop (List.length first) ser true true true
-  | _ :: _ => infer_scalar_branch hasnan (dtype_of col) ser
+  | c :: _ =>
+      match c with                                     (* isinstance(ser.iloc[0], list) *)
+      | LList first => infer_list_loop (List.length first) ser true true true
+      | _ => infer_scalar_branch hasnan (dtype_of col) ser
+      end
   end.
 
 (* infer_df_stype: columns in order; a column without a type is skipped; an
